@@ -102,11 +102,12 @@ def run_c08(prop, tier, seed, replay=None):
     rep.cov["exhaustive"] = False
     rep.cov["model_pairs_explored"] = n_model
     rep.cov["rule"] = (
-        "TLC explores MC_Resolve (evolution state machine: seeds x step sequences; quick: 2 steps from 5 seeds, 1 step from"
-        " all 40; thorough: 2 steps from all seeds) and checks the resolution laws (result conforms to R, idempotence,"
-        " identity on W=R, safe steps always readable) on EVERY explored (W,R,value) under the grey-zone readings."
-        " Executed on the real crate: every pair of <= 1 step, a seeded sample of the longer ones, and seeded random step"
-        " sequences of length <= 5/6 from random seed schemas; each pair x each boundary value of W through the three entry"
+        "TLC explores MC_Resolve (evolution state machine over 40 seed writer schemas x 24 step kinds; quick: 2 steps from 4"
+        " seeds, 1 step from the others; thorough: 3 steps from 2 seeds, 2 steps from 16, 1 step from the others) and checks"
+        " the resolution laws (result conforms to R, idempotence, identity on W=R, safe steps always readable) on EVERY explored"
+        " (W,R,value) under the grey-zone readings. Executed on the real crate: the seeds themselves, the one-step pairs (quick:"
+        " seeded sample of 450; thorough: all), a seeded sample of the longer ones (300 / 6000) and seeded random step sequences"
+        " of length <= 5/6 from random seed schemas (110 / 1500); each pair x each boundary value of W through the three entry"
         " points, judged by Trace_Resolve.tla. evaluations = (W,R,value) triples executed; traces = (W,R) pairs;"
         " non-trivial = pairs with at least one step; distinct = distinct (W,R) hashes.")
     for s in scns[:1] + scns[len(scns) // 2: len(scns) // 2 + 2] + scns[-2:]:
@@ -122,8 +123,38 @@ def run_c08(prop, tier, seed, replay=None):
     def replay_of(i):
         return {"scenario": scns[i], "event": json.loads(events[i])}
 
+    if tier == "thorough" and not replay:
+        selftest_c08(work, events, verdicts, rep)
     rep.classify(verdicts, replay_of)
     return rep.finish()
+
+
+def selftest_c08(work, events, verdicts, rep):
+    """binding self-test: corrupt one recorded field of an accepted event -> the trace spec must reject it"""
+    flagged = {v["id"] for v in verdicts}
+    for line in events:
+        e = json.loads(line)
+        if e["id"] in flagged or not e["parse_ok"] or not e["cases"]:
+            continue
+        c = e["cases"][0]
+        if not (c["dr"]["ok"] and c["terms"]):
+            continue
+        a = json.loads(line); a["id"] = 0
+        a["cases"][0]["dr_valid"] = False
+        b = json.loads(line); b["id"] = 1
+        b["cases"][0]["cr"] = {"ok": False, "panic": False, "ti": 0, "err": "selftest"}
+        c2 = json.loads(line); c2["id"] = 2
+        c2["cases"][0]["dr_again"] = {"ok": False, "panic": False, "ti": 0, "err": "selftest"}
+        vs, _, _ = vf.judge_events(work, "Trace_Resolve.tla", "Trace_Resolve.cfg",
+                                   [json.dumps(x) for x in (a, b, c2)], chunk=10, jobs=1)
+        got = {v["id"]: set(v["fail"]) for v in vs}
+        want = {0: "C08:validates-datum", 1: "C08:result-container", 2: "C08:idempotent-datum"}
+        for i, cl in want.items():
+            if cl not in got.get(i, set()):
+                raise vf.ToolError(f"binding self-test: corrupted field not rejected ({cl}); got {got}")
+        rep.cov["selftest"] = "3 corrupted fields of an accepted event rejected"
+        return
+    raise vf.ToolError("binding self-test: no accepted event to corrupt")
 
 
 # --------------------------------------------------------------------------------------------
@@ -224,5 +255,37 @@ def run_c09(prop, tier, seed, replay=None):
     def replay_of(i):
         return {"scenario": lines[i], "event": parsed[i]}
 
+    if tier == "thorough" and not replay:
+        selftest_c09(work, parsed, verdicts, rep)
     rep.classify(verdicts, replay_of)
     return rep.finish()
+
+
+def selftest_c09(work, parsed, verdicts, rep):
+    """binding self-test: flip recorded fields of an accepted pair -> the trace spec must reject"""
+    flagged = {v["id"] for v in verdicts}
+    for e in parsed:
+        if not e["parse_ok"]:
+            continue
+        # the pair (W, W): never the subject of a known finding
+        idx = [i for i, r in enumerate(e["readers"]) if r["parse_ok"] and r["R"] == e["W"] and r["cr_wr"]["vd"] == "Full"
+               and r["reads"] and all(x["ok"] for x in r["reads"])]
+        if not idx:
+            continue
+        i = idx[0]
+        a = json.loads(json.dumps(e)); a["id"] = 0; a["readers"] = [a["readers"][i]]
+        a["readers"][0]["reads"][0]["ok"] = False
+        b = json.loads(json.dumps(e)); b["id"] = 1; b["readers"] = [b["readers"][i]]
+        b["readers"][0]["mu_rw"]["vd"] = "Partial" if b["readers"][0]["mu_wr"]["vd"] != "Partial" else "Full"
+        c = json.loads(json.dumps(e)); c["id"] = 2; c["readers"] = [c["readers"][i]]
+        c["readers"][0]["cr_rr"]["vd"] = "Partial"
+        vs, _, _ = vf.judge_events(work, "Trace_Compat.tla", "Trace_Compat.cfg",
+                                   [json.dumps(x) for x in (a, b, c)], chunk=10, jobs=1)
+        got = {v["id"]: set(v["fail"]) for v in vs}
+        want = {0: "C09:full-but-read-fails", 1: "C09:mutual-not-symmetric", 2: "C09:self-not-full"}
+        for k, cl in want.items():
+            if cl not in got.get(k, set()):
+                raise vf.ToolError(f"binding self-test: corrupted field not rejected ({cl}); got {got}")
+        rep.cov["selftest"] = "3 corrupted fields of an accepted pair rejected"
+        return
+    raise vf.ToolError("binding self-test: no accepted Full pair to corrupt")
